@@ -3,7 +3,9 @@ package checks
 import (
 	"context"
 	"fmt"
+	"net"
 	"strings"
+	"sync"
 	"time"
 
 	"github.com/tsuna/gohbase/hrpc"
@@ -301,8 +303,80 @@ func c03Units(thorough bool) []*explore.Unit {
 	return units
 }
 
+// c03Race: senders racing an external Close on the real region client, free-running for
+// the race detector; every call must still be completed exactly once.
+func c03Race() []RaceBody {
+	run := func(qsize int) func(iter int) error {
+		return func(iter int) error {
+			conn := &sim.Conn{Name: "rs1:1"}
+			dial := func(ctx context.Context, network, addr string) (net.Conn, error) { return conn, nil }
+			rc := region.NewClient("rs1:1", region.RegionClient, qsize, time.Millisecond, "root", 30*time.Second, nil, dial, quietLogger)
+			reg := region.NewInfo(1, nil, []byte("t"), []byte("t,,1"), nil, nil)
+			srv := &sim.Server{Conn: conn}
+			if err := rc.Dial(context.Background()); err != nil {
+				return err
+			}
+			go srv.ServeReal(func(f *sim.Frame) []byte {
+				resp, cells := answer(f)
+				return sim.EncodeResponse(f.Header.GetCallId(), resp, nil, cells)
+			})
+			var wg sync.WaitGroup
+			errs := make(chan error, 64)
+			for g := 0; g < 3; g++ {
+				g := g
+				wg.Add(1)
+				go func() {
+					defer wg.Done()
+					for j := 0; j < 4; j++ {
+						var opts []func(hrpc.Call) error
+						if (g+j)%2 == 0 {
+							opts = append(opts, hrpc.SkipBatch())
+						}
+						key := fmt.Sprintf("g%dk%d", g, j)
+						p, _ := hrpc.NewPutStr(context.Background(), "t", key, map[string]map[string][]byte{"f": {"q": []byte(key)}}, opts...)
+						p.SetRegion(reg)
+						rc.QueueRPC(p)
+						select {
+						case res := <-p.ResultChan():
+							if res.Error != nil {
+								if _, ok := res.Error.(region.ServerError); !ok {
+									errs <- fmt.Errorf("put %s failed with a non-connection error: %v", key, res.Error)
+								}
+							}
+						case <-time.After(20 * time.Second):
+							errs <- fmt.Errorf("put %s was never completed", key)
+							return
+						}
+						select {
+						case res := <-p.ResultChan():
+							errs <- fmt.Errorf("put %s was completed twice (%v)", key, res.Error)
+						default:
+						}
+					}
+				}()
+			}
+			wg.Add(1)
+			go func() {
+				defer wg.Done()
+				time.Sleep(time.Duration(iter%7) * 150 * time.Microsecond)
+				rc.Close()
+			}()
+			wg.Wait()
+			rc.Close()
+			select {
+			case e := <-errs:
+				return e
+			default:
+			}
+			return nil
+		}
+	}
+	return []RaceBody{{"3 senders + Close, unbatched", run(1)}, {"3 senders + Close, batched", run(3)}}
+}
+
 func init() {
 	register(&Prop{
+		Race: c03Race,
 		ID: "C03", Level: "fault_enumeration",
 		Technique: "stateless model checking of the real region client: every connection-operation fault position and server misbehaviour crossed with all schedules up to a deviation bound, under a controlled scheduler with virtual time",
 		Rule: "units = call mix (batched/unbatched/cellblock/cancelled) x {no fault, k-th connection op fails for every k incl. partial writes, server EOF / truncated frame / undecodable header / unknown call id / missing call id / server-fatal exception / silence at every frame} x {external Close() thread or not}; for each unit every schedule with <=1 (thorough <=2) deviations from the default run-to-block schedule. Oracle per call: exactly one completion on its result channel, class ServerError unless genuinely answered; later calls refused at once; no client thread left blocked. Non-trivial = at least one non-default scheduling choice.",
